@@ -108,12 +108,12 @@ def c20_r2(ctx):
         any(isinstance(lp, ast.For) and WH.eq(lp.target, "(hashval, position)") and WH.eq(lp.iter, "entries") for lp in whs)
     RK = pm.Alpha(rk)
     rks = pm.stmts_of(rk.node)
-    r_ok = RK.has(rks, "keyhash = self.hashfn(key)") and RK.has(rks, "tablestart, numslots = self.tables[keyhash & 255]") and \
-        RK.has(rks, "ptrsize = _pointer.size") and RK.has(rks, "slotpos = tablestart + (((keyhash >> 8) % numslots) * ptrsize)")
+    r_ok = RK.has(rks, "tablestart, numslots = self.tables[self.hashfn(key) & 255]", deep=True) and \
+        RK.has(rks, "slotpos = tablestart + (((self.hashfn(key) >> 8) % numslots) * _pointer.size)", deep=True)
     ctx.ob("HashWriter._write_hashes <-> HashReader.ranges_for_key", w_ok and r_ok, "initial slot = (hash >> 8) % numslots; probing wraps modulo numslots",
            detail="writer forms recognised: %s ; reader forms recognised: %s" % (w_ok, r_ok), loc=wh.loc)
-    wrap = [st for st in rks if isinstance(st, ast.If) and RK.eq(st.test, "slotpos == tablestart + (numslots * ptrsize)")]
-    ctx.ob(rk, len(wrap) == 1 and RK.has(wrap[0].body, "slotpos = tablestart") and RK.has(rks, "slotpos += ptrsize"),
+    wrap = [st for st in rks if isinstance(st, ast.If) and RK.eq(st.test, "slotpos == tablestart + (numslots * _pointer.size)", deep=True)]
+    ctx.ob(rk, len(wrap) == 1 and RK.has(wrap[0].body, "slotpos = tablestart") and RK.has(rks, "slotpos += _pointer.size", deep=True),
            "the reader's probe wraps to the start of the table")
     cl = hw.methods["close"]
     CL = pm.Alpha(cl)
@@ -145,8 +145,9 @@ def c20_r2(ctx):
     rg = hr.methods["_ranges"]
     RG = pm.Alpha(rg)
     rgs = pm.stmts_of(rg.node)
-    ctx.ob(rg, RG.has(rgs, "lenssize = _lengths.size") and RG.has(rgs, "keylen, datalen = unpacklens(dbfile.get(pos, lenssize))") and
-           RG.has(rgs, "keypos = pos + lenssize") and RG.has(rgs, "datapos = keypos + keylen") and RG.has(rgs, "pos = datapos + datalen"),
+    ctx.ob(rg, RG.has(rgs, "keylen, datalen = _lengths.unpack(self.dbfile.get(pos, _lengths.size))", deep=True) and
+           RG.has(rgs, "keypos = pos + _lengths.size", deep=True) and RG.has(rgs, "datapos = keypos + keylen") and RG.has(rgs, "pos = datapos + datalen") and
+           any(isinstance(y, ast.Yield) and RG.eq(y.value, "(keypos, keylen, datapos, datalen)") for y in ast.walk(rg.node)),
            "reader steps through records as lengths, key, value")
     # ordered index: lower-bound search
     oh = prog.cls(FT + "OrderedHashReader")
@@ -374,9 +375,14 @@ def c20_r7(ctx):
         raise AnalysisError("util.numlists delta_encode/delta_decode vanished")
     DE, DD = pm.Alpha(de), pm.Alpha(dd)
     des, dds = pm.stmts_of(de.node), pm.stmts_of(dd.node)
-    e_ok = DE.has(des, "base = 0") and any(isinstance(lp, ast.For) and DE.eq(lp.iter, "nums") and DE.eq(lp.target, "n") and len(lp.body) == 2 and
-                                         DE.eq(lp.body[0], "yield n - base") and DE.eq(lp.body[1], "base = n") for lp in des)
-    d_ok = DD.has(dds, "base = 0") and any(isinstance(lp, ast.For) and DD.eq(lp.iter, "nums") and DD.eq(lp.target, "n") and len(lp.body) == 2 and
-                                         DD.eq(lp.body[0], "base += n") and DD.eq(lp.body[1], "yield base") for lp in dds)
+    def two_step(A_, stmts, first, second):
+        """the loop over nums does `first` then `second` directly in its body, and nothing else binds base or yields"""
+        for lp in stmts:
+            if isinstance(lp, ast.For) and A_.eq(lp.iter, "nums") and A_.eq(lp.target, "n"):
+                core = [st for st in lp.body if any(isinstance(x, (ast.Yield, ast.Assign, ast.AugAssign)) for x in ast.walk(st))]
+                return len(core) == 2 and A_.eq(core[0], first) and A_.eq(core[1], second) and core[0] in lp.body and core[1] in lp.body
+        return False
+    e_ok = DE.has(des, "base = 0") and two_step(DE, des, "yield n - base", "base = n")
+    d_ok = DD.has(dds, "base = 0") and two_step(DD, dds, "base += n", "yield base")
     ctx.ob("util.numlists.delta_encode <-> delta_decode", e_ok and d_ok,
            "encode yields n - base then base = n; decode adds to base and yields it", loc=de.loc)
